@@ -17,9 +17,9 @@ RESERVED = ["file", "directory", "playlist", "duration", "Time", "Range", "Forma
 
 # ------------------------------------------------------------------ abstract listings
 
-URLS = ["a.flac", "dir/sub/b c.mp3", "http://example.org/stream?x=1: 2", "ä/ö.ogg", "日本語.flac", "x", "file: y", "Artist: z", "OK", "a\tb"]
+URLS = ["a.flac", "m/" + "d" * 4200 + ".flac", "dir/sub/b c.mp3", "http://example.org/stream?x=1: 2", "ä/ö.ogg", "日本語.flac", "x", "file: y", "Artist: z", "OK", "a\tb"]
 VALUES = ["Foo", "", "a: b", ": ", "Ünï©ode", "日本語", "\U0001F600", "  lead", "trail ", "12", "0", "007", "+3", "18446744073709551615",
-          "18446744073709551616", "x" * 70, "file: z", "OK", "ACK [5@0] {} x", "-1", "3/12"]
+          "18446744073709551616", "x" * 70, "file: z", "OK", "ACK [5@0] {} x", "-1", "3/12", "1/12", "3 / 12", "A/B", "12/", "/12", "v" * 4090, "v" * 4097, "v" * 9000]
 UNKNOWN_TAGS = ["Foo", "foo", "FOO", "x", "a-b_c", "File", "FILE", "time", "TIME", "pos", "ID", "format", "Directory", "last-modified",
                 "Mood", "TitleSort", "Albumx", "Duration", "range", "PRIO"]
 DURS = ["0", "1", "123.456", "0.0005", "4194303.999999999", "5.", ".5", "+7.25", "00012.250", "1.500", "0.000000001", "3600", "59.999",
